@@ -23,8 +23,9 @@
 (*             n = K m: row sums, transition matrix and stationary vector of  *)
 (*             a Kronecker product are the products of the factors'           *)
 (*                                                                            *)
-(* u, s, d, a are periodic patterns of small integers (Pats), so that none of *)
-(* the families is doubly stochastic: the stationary vector is not uniform.   *)
+(* u, s, d, a are periodic patterns of small integers (Pats) chosen so that   *)
+(* the families are not doubly stochastic: the stationary vector is not the   *)
+(* uniform one (NotUniform, checked for every n >= 8).                        *)
 (* Matrices are sparse rows  [i -> [j in support(i) -> count]]  plus a scalar *)
 (* background bg that stands for "prior added to every entry" (the dense      *)
 (* matrix C + prior is never materialised); every sum below runs over         *)
@@ -218,6 +219,7 @@ SupportsOK == pc = "prior" => \A i \in Idx :
    /\ \A j \in Sup(i) : IsSup(i, j) /\ IsIn(i, j) /\ Cnt(i, j) >= 0
    /\ \A r \in In(i) : IsIn(r, i) /\ IsSup(r, i)
    /\ Reversible => \A j \in Sup(i) : Link(fam, n, i, j) = Link(fam, n, j, i)
+   /\ u(i) > 0 /\ s(i) > 0 /\ d(i) >= 0 /\ a(i) > 0 /\ LA % a(i) = 0           \* the patterns
 (* n <= DenseMax: nothing outside the supports *)
 SupportsComplete == (pc = "prior" /\ n <= DenseMax) => \A i, j \in Idx : (j \notin Sup(i) \/ i \notin In(j)) => Cnt(i, j) = 0
 
